@@ -72,29 +72,42 @@ Proof.
 Qed.
 Print Assumptions C18_all_delivered_at_close.
 
-(* timed: if close() does not raise, every handler call has completed when it returns and none happens later *)
-Theorem C18_all_before_close : forall free items tc raised tret nb na, costs_nonneg items ->
-  close_model free items tc = (raised, tret, nb, na) -> raised = false ->
-  Forall (fun d => d <= tret) (completions free items) /\ nb = Z.of_nat (length items) /\ na = 0.
+(* timed: close() (sentinel + join without timeout) returns only when every handler call has completed, none
+   happens later -- whatever the handler time owed *)
+Theorem C18_all_before_close : forall free items tc tret nb na, costs_nonneg items ->
+  close_model free items tc = (tret, nb, na) ->
+  tc <= tret /\ Forall (fun d => d <= tret) (completions free items) /\ nb = Z.of_nat (length items) /\ na = 0.
 Proof. exact all_before_close. Qed.
 Print Assumptions C18_all_before_close.
 
-(* close() does return normally when the handler time still owed fits in the join timeout (1024/1024 s) *)
-Theorem C18_close_returns_when_backlog_fits : forall free items tc,
-  Forall (fun it => fst it <= tc /\ 0 <= snd it) items -> free <= tc -> zsum (map snd items) <= 1024 ->
-  fst (fst (fst (close_model free items tc))) = false.
-Proof. exact close_returns_when_backlog_fits. Qed.
-Print Assumptions C18_close_returns_when_backlog_fits.
+(* and it waits no longer than the handler time still owed when it is called *)
+Theorem C18_close_wait_bounded : forall free items tc,
+  Forall (fun it => fst it <= tc /\ 0 <= snd it) items -> free <= tc ->
+  fst (fst (close_model free items tc)) <= tc + zsum (map snd items).
+Proof. exact close_wait_bounded. Qed.
+Print Assumptions C18_close_wait_bounded.
 
-(* limit 1: briefly blocking handlers (<= 52/1024 s each) and 23 queued events: close() raises after 1 s, 19 calls
-   done, 4 calls made after close() has raised *)
-Theorem C18_close_brief_handlers_refuted : exists items tc,
-  Forall (fun it => fst it <= tc /\ 0 <= snd it <= 52) items /\
-  close_model 0 items tc = (true, 1024, 19, 4).
-Proof. exact close_brief_handlers_refuted. Qed.
-Print Assumptions C18_close_brief_handlers_refuted.
+(* several extractions with callbacks in one session: _extract ends the previous reporter (sentinel + join) before it
+   starts the next, so each callback receives exactly its own extraction's events *)
+Theorem C18_second_extraction_own_callback : forall ev1 ev2,
+  reporter_rest (map Some ev1 ++ None :: map Some ev2 ++ [None]) = (ev1, true, map Some ev2 ++ [None]) /\
+  reporter_rest (map Some ev2 ++ [None]) = (ev2, true, []) /\
+  accounts 3 (map Some ev1 ++ None :: map Some ev2 ++ [None]) = [ev1; ev2].
+Proof. exact second_extraction_own_callback. Qed.
+Print Assumptions C18_second_extraction_own_callback.
 
-(* limit 2: mp=True loses the events of the folder workers *)
+Theorem C18_second_extraction_wellformed : forall sh1 sc1 sh2 sc2,
+  shape_ok sh1 -> complete sh1 sc1 = true -> shape_ok sh2 -> complete sh2 sc2 = true ->
+  exists a1 a2, accounts 3 (map Some (emitted sh1 sc1) ++ None :: map Some (emitted sh2 sc2) ++ [None]) = [a1; a2] /\
+    wellformed (processed sh1) a1 /\ wellformed (processed sh2) a2.
+Proof.
+  intros sh1 sc1 sh2 sc2 H1 H2 H3 H4. exists (emitted sh1 sc1), (emitted sh2 sc2).
+  split; [exact (proj2 (proj2 (second_extraction_own_callback _ _)))|].
+  split; [exact (events_wellformed _ _ H1 H2)|exact (events_wellformed _ _ H3 H4)].
+Qed.
+Print Assumptions C18_second_extraction_wellformed.
+
+(* limit: mp=True loses the events of the folder workers *)
 Theorem C18_events_lost_mp_refuted : exists sh, shape_ok sh /\ ~ wellformed (processed sh) (emitted_mp sh).
 Proof. exact events_lost_mp_refuted. Qed.
 Print Assumptions C18_events_lost_mp_refuted.
@@ -103,12 +116,6 @@ Theorem C18_events_mp_partial : forall sh, shape_ok sh -> s_mode sh = MultiPar -
   wellformed (empties sh) (emitted_mp sh).
 Proof. exact events_mp_partial. Qed.
 Print Assumptions C18_events_mp_partial.
-
-(* limit 3: two reporter threads on one queue (second extraction with a callback before close()) split the account *)
-Theorem C18_second_reporter_split_refuted : exists ms evs choice,
-  wellformed ms evs /\ ~ wellformed ms (fst (split2 choice evs)) /\ ~ wellformed ms (snd (split2 choice evs)).
-Proof. exact second_reporter_split_refuted. Qed.
-Print Assumptions C18_second_reporter_split_refuted.
 
 (* ---- non-vacuity: three folders (one skipped), an empty-stream member, an unselected member in a selected folder *)
 Example C18_example_hypotheses : shape_ok ex_shape /\ complete ex_shape ex_sched = true.
@@ -128,7 +135,12 @@ Example C18_example_updates :
   dec_loop 10 0 0 [(4, 600); (0, 500); (3, 0); (3, 0)] = ([4; 6], 0).
 Proof. vm_compute. repeat split; reflexivity. Qed.
 
+(* 23 handler calls of 52/1024 s owed at close(): close() returns after 1196/1024 s with all 23 done (the code before
+   the repair raised InternalError at 1024 with 19 done) *)
+Example C18_example_close_long : close_model 0 (repeat (0, 52) 23) 0 = (1196, 23, 0).
+Proof. vm_compute. reflexivity. Qed.
+
 Example C18_example_close : costs_nonneg [(0, 3); (0, 3); (5, 3)] /\
-  close_model 0 [(0, 3); (0, 3); (5, 3)] 6 = (false, 9, 3, 0) /\
+  close_model 0 [(0, 3); (0, 3); (5, 3)] 6 = (9, 3, 0) /\
   Forall (fun it => fst it <= 6 /\ 0 <= snd it) [(0, 3); (0, 3); (5, 3)].
 Proof. split; [repeat constructor; simpl; lia|]. split; [vm_compute; reflexivity|repeat constructor; simpl; lia]. Qed.
